@@ -743,6 +743,59 @@ def rule_k(R, ctx):
     R.floor("C19.k", "arms of the borrowed conversion", len(b), 9)
 
 
+# C struct -> {tag constant: {field: source}} ; source = "<Variant>.<n>" of the converted Rust enum | "null" | None (not checked)
+EVENT_CELLS = {
+    "yffi::YEventKeyChange": ("yffi::YEventKeyChange::new", {
+        "Y_EVENT_KEY_CHANGE_ADD": {"old_value": "null", "new_value": "Inserted.0"},
+        "Y_EVENT_KEY_CHANGE_UPDATE": {"old_value": "Updated.0", "new_value": "Updated.1"},   # EntryChange::Updated(old, new), see C11.f
+        "Y_EVENT_KEY_CHANGE_DELETE": {"old_value": "Removed.0", "new_value": "null"},
+    }),
+    "yffi::YEventChange": ("<yffi::YEventChange as std::convert::From<&yrs::types::Change>>::from", {
+        "Y_EVENT_CHANGE_ADD": {"len": "Added.0", "values": "Added.0"},
+        "Y_EVENT_CHANGE_DELETE": {"len": "Removed.0", "values": "null"},
+        "Y_EVENT_CHANGE_RETAIN": {"len": "Retain.0", "values": "null"},
+    }),
+}
+
+
+def rule_l(R, ctx, rid="C19.l"):
+    F_ = ctx.yffi
+    R.rule(rid, "R-TABLE event cells: each C event struct is filled, per tag, from the matching variant of the Rust change it converts "
+                "and from the matching POSITION of that variant — a key change tagged UPDATE takes old_value from "
+                "EntryChange::Updated.0 (the previous value, C11.f) and new_value from Updated.1, ADD has no old value, DELETE no new "
+                "one; a sequence change tagged ADD / DELETE / RETAIN takes its length and values from Added / Removed / Retain")
+    n = 0
+    for adt, (path, table) in sorted(EVENT_CELLS.items()):
+        fn = F_.fn(path)
+        v = FnView(fn)
+        seen = set()
+        for i, j, st in fn.stmts():
+            ag = st["rv"].get("agg") if isinstance(st["rv"], dict) else None
+            if not ag or str(ag.get("adt", "")) != adt:
+                continue
+            t = simp_deep(v.terms.rvalue(st["rv"], 14))
+            names = list(t[3]) if len(t) > 3 else list(ag.get("fields", []))
+            vals = dict(zip(names, t[2]))
+            tag = simp_deep(vals.get("tag")) if "tag" in vals else None
+            tname = str(tag[2]).rsplit("::", 1)[-1] if tag and tag[0] == "const" and len(tag) > 2 and tag[2] else None
+            if tname not in table:
+                R.ob(rid, fn, "tag@bb%d" % i, False, "struct built with a tag the table does not know: %s" % (sshow(tag) if tag else None))
+                continue
+            seen.add(tname)
+            for field, want in sorted(table[tname].items()):
+                n += 1
+                val = simp_deep(vals.get(field))
+                srcs = sorted({"%s" % x[1].rsplit("::", 1)[-1] for x in walk(val) if isinstance(x, tuple) and x and x[0] == "field"
+                               and re.search(r"::(Inserted|Updated|Removed|Added|Retain)\.\d+$", x[1])})
+                is_null = val[0] == "call" and re.search(r"ptr::null(_mut)?$", val[1]) is not None
+                ok = (want == "null" and is_null and not srcs) or (want != "null" and srcs == [want])
+                R.ob(rid, fn, "%s:%s" % (tname, field), ok, "%s <- %s" % (field, "null" if is_null else srcs) if ok else
+                     "%s of a %s cell is filled from %s — expected %s" % (field, tname, "null" if is_null else (srcs or sshow(val)), want))
+        for tname in sorted(set(table) - seen):
+            R.ob(rid, fn, "tag:" + tname, False, "no struct with tag %s is built" % tname)
+    R.floor(rid, "event cell fields checked", n, 10)
+
+
 def check(ctx, R):
     holder = {}
     R.run("C19.a", lambda R, c: holder.setdefault("h", rule_a(R, c)), ctx)
@@ -755,6 +808,7 @@ def check(ctx, R):
     R.run("C19.i", rule_i, ctx)
     R.run("C19.j", rule_j, ctx)
     R.run("C19.k", rule_k, ctx)
+    R.run("C19.l", rule_l, ctx)
     if "h" in holder:
         R.run("C19.d", rule_d, ctx, holder["h"])
     return {}
